@@ -93,8 +93,8 @@ func init() {
 	mutant("cli-delta-not-remembered", "initial-window-delta", "conn.go", "	delta := size - c.streamWindow\n	c.streamWindow = size\n", "	delta := size - c.streamWindow\n")
 	mutant("no-flush-after-conn-credit", "credit-then-flush", "serverConn.go", "						break loop\n					}\n\n					sc.flushStreams(strms, closeStream)\n				}\n\n				continue", "						break loop\n					}\n				}\n\n				continue")
 	mutant("cli-no-signal", "credit-then-flush", "conn.go", "		pb.window += inc\n	}\n\n	c.sendLck.Unlock()\n\n	c.signalWindow()", "		pb.window += inc\n	}\n\n	c.sendLck.Unlock()")
-	mutant("refused-data-ok-but-priority-skip", "hdr-must-decode", "serverConn.go", "				if fr.Stream() < sc.lastID {\n					sc.writeGoAway(fr.Stream(), ProtocolError, \"stream ID is lower than the latest\")\n					continue\n				}", "				if fr.Stream() < sc.lastID {\n					sc.writeReset(fr.Stream(), ProtocolError)\n					continue\n				}")
-	mutant("data-on-closed-stream-reset-only", "data-must-credit", "serverConn.go", "					default:\n						sc.writeGoAway(fr.Stream(), StreamClosedError, \"frame on closed stream\")\n					}", "					default:\n						sc.writeReset(fr.Stream(), StreamClosedError)\n					}")
+	mutant("refused-data-ok-but-priority-skip", "hdr-must-decode", "serverConn.go", "					sc.writeGoAway(fr.Stream(), ProtocolError, \"stream ID is lower than the latest\")\n\n					if canCloseAfterGoAway() {\n						break loop\n					}\n", "					sc.writeReset(fr.Stream(), ProtocolError)\n")
+	mutant("data-on-closed-stream-reset-only", "data-must-credit", "serverConn.go", "					default:\n						sc.writeGoAway(fr.Stream(), StreamClosedError, \"frame on closed stream\")\n\n						if canCloseAfterGoAway() {\n							break loop\n						}\n					}", "					default:\n						sc.writeReset(fr.Stream(), StreamClosedError)\n					}")
 	mutant("refill-wrong-increment", "recv-window-refill", "serverConn.go", "		inc := sc.maxWindow - sc.currentWindow\n		sc.currentWindow = sc.maxWindow", "		inc := sc.maxWindow\n		sc.currentWindow = sc.maxWindow")
 	mutant("cli-debit-data-length", "recv-window-refill", "conn.go", "		c.consumeConnWindow(fr.Len())\n\n		data := fr.Body().(*Data)", "		c.consumeConnWindow(fr.Body().(*Data).Len())\n\n		data := fr.Body().(*Data)")
 	mutant("zero-increment-possible", "increment-positive", "serverConn.go", "	if n <= 0 {\n		return\n	}\n\n	// The body has already been copied", "	if n < 0 {\n		return\n	}\n\n	// The body has already been copied")
@@ -125,7 +125,7 @@ func init() {
 func init() {
 	mutant("idle-priority-rejected", "state-table", "serverConn.go", "if fr.Type() != FrameHeaders && fr.Type() != FramePriority {\n			return NewGoAwayError(ProtocolError, \"wrong frame on idle stream\")", "if fr.Type() != FrameHeaders {\n			return NewGoAwayError(ProtocolError, \"wrong frame on idle stream\")")
 	mutant("data-before-headers-finished", "state-table", "serverConn.go", "		if !strm.headersFinished {\n			return NewGoAwayError(ProtocolError, \"stream didn't end the headers\")\n		}\n", "")
-	mutant("trailers-without-endstream", "state-table", "serverConn.go", "if strm.headersFinished && !fr.Flags().Has(FlagEndStream|FlagEndHeaders) {", "if strm.headersFinished && !fr.Flags().Has(FlagEndHeaders) {")
+	mutant("trailers-without-endstream", "state-table", "serverConn.go", "		if !fr.Flags().Has(FlagEndStream) {\n			return NewGoAwayError(ProtocolError, \"stream not open\")\n		}\n\n", "")
 	mutant("idle-headers-endstream-stays-open", "state-table", "serverConn.go", "			strm.SetState(StreamStateOpen)\n			if fr.Flags().Has(FlagEndStream) {\n				strm.SetState(StreamStateHalfClosed)\n			}", "			strm.SetState(StreamStateOpen)")
 	mutant("rst-in-halfclosed-ignored", "state-table", "serverConn.go", "	if fr.Type() == FrameResetStream {\n		strm.SetState(StreamStateClosed)\n	}\n\n	switch strm.State() {", "	switch strm.State() {")
 	mutant("stream-closed-code-changed", "state-table", "serverConn.go", "return NewGoAwayError(StreamClosedError, \"wrong frame on half-closed stream\")", "return NewGoAwayError(FlowControlError, \"wrong frame on half-closed stream\")")
@@ -208,7 +208,7 @@ func init() {
 	mutant("conn-window-limit-loose", "credit-overflow-check", "serverConn.go", "					if sc.clientWindow > 1<<31-1 {", "					if sc.clientWindow > 1<<31+1 {")
 	mutant("stream-wu-limit-nonstrict", "credit-overflow-check", "serverConn.go", "		if atomic.AddInt64(&strm.window, win) > 1<<31-1 {", "		if atomic.AddInt64(&strm.window, win) >= 1<<31-1 {")
 	mutant("rst-on-latest-is-idle", "unknown-stream-classification", "serverConn.go", "					if fr.Stream() > sc.lastID {", "					if fr.Stream() >= sc.lastID {")
-	mutant("lower-than-latest-nonstrict", "unknown-stream-classification", "serverConn.go", "				if fr.Stream() < sc.lastID {\n					sc.writeGoAway(fr.Stream(), ProtocolError, \"stream ID is lower than the latest\")", "				if fr.Stream() <= sc.lastID {\n					sc.writeGoAway(fr.Stream(), ProtocolError, \"stream ID is lower than the latest\")")
+	mutant("lower-than-latest-nonstrict", "unknown-stream-classification", "serverConn.go", "				if fr.Stream() < sc.lastID {\n					if fr.Type() == FrameWindowUpdate {", "				if fr.Stream() <= sc.lastID {\n					if fr.Type() == FrameWindowUpdate {")
 	mutant("resume-not-closed", "completion-closes-stream", "serverConn.go", "				if sc.sendData(strm) {\n					strm.SetState(StreamStateClosed)\n				}", "				if sc.sendData(strm) {\n					strm.responded = true\n				}")
 	mutant("flush-done-not-closed", "completion-closes-stream", "serverConn.go", "	for _, s := range done {\n		s.SetState(StreamStateClosed)\n		closeStream(s)\n	}", "	for _, s := range done {\n		s.SetState(StreamStateClosed)\n	}")
 	mutant("resume-while-handler-runs", "completion-closes-stream", "serverConn.go", "			} else if strm.responded && !strm.handlerRunning && strm.hasMoreToSend() {", "			} else if strm.responded || !strm.handlerRunning && strm.hasMoreToSend() {")
@@ -560,4 +560,16 @@ func init() {
 	mutant("frame-payload-keeps-a-stale-octet", "replace-idiom", "frameHeader.go", "	f.payload = append(f.payload[:0], payload...)", "	f.payload = append(f.payload[:1], payload...)")
 	mutant("stream-path-keeps-a-stale-octet", "replace-idiom", "stream.go", "	strm.path = strm.path[:0]", "	strm.path = strm.path[:1]")
 	mutant("settings-encode-keeps-previous-octets", "replace-idiom", "settings.go", "func (st *Settings) Encode() {\n	st.rawSettings = st.rawSettings[:0]", "func (st *Settings) Encode() {\n	st.rawSettings = st.rawSettings[:6]")
+}
+
+func init() {
+	mutant("trailers-must-fit-one-frame-again", "state-table", "serverConn.go", "		// Like any header block the trailers may go on in CONTINUATION frames.\n		// The block is open again until its END_HEADERS, and the request is\n		// not complete, and not dispatched, before that.\n		strm.headersFinished = false\n", "		if !fr.Flags().Has(FlagEndHeaders) {\n			return NewGoAwayError(ProtocolError, \"stream not open\")\n		}\n")
+	mutant("trailer-block-dispatches-before-end-headers", "server-loop-shape", "serverConn.go", "		strm.headersFinished = false\n	}\n\n	if headerFrame, ok", "	}\n\n	if headerFrame, ok")
+	mutant("settings-acknowledged-by-the-read-loop", "late-and-graceful-frames", "serverConn.go", "				// must not overtake the INITIAL_WINDOW_SIZE delta.\n				if !sc.forward(fr) {", "				// must not overtake the INITIAL_WINDOW_SIZE delta.\n				sc.handleSettings(st)\n				if !sc.forward(fr) {")
+	mutant("settings-acknowledged-before-the-delta", "late-and-graceful-frames", "serverConn.go", "					st := fr.Body().(*Settings)\n					if st.hasWindowSize {", "					st := fr.Body().(*Settings)\n					sc.handleSettings(st)\n					if st.hasWindowSize {")
+	mutant("peer-goaway-ends-the-read-loop", "late-and-graceful-frames", "serverConn.go", "			if ga.Code() != NoError {\n				err = fmt.Errorf(\"goaway: %s: %s\", ga.Code(), ga.Data())\n			}", "			err = fmt.Errorf(\"goaway: %s: %s\", ga.Code(), ga.Data())")
+	mutant("late-window-update-is-an-error", "late-and-graceful-frames", "serverConn.go", "					if fr.Type() == FrameWindowUpdate {\n						// An id below", "					if fr.Type() == FrameWindowUpdate && sc.debug {\n						// An id below")
+	mutant("client-drops-unowned-header-blocks", "late-and-graceful-frames", "conn.go", "		if fr.Type() == FrameData {\n			c.consumeConnWindow(fr.Len())\n		}\n\n		return c.skipHeaderBlock(fr)\n	}\n\n	// A canceled", "		if fr.Type() == FrameData {\n			c.consumeConnWindow(fr.Len())\n		}\n\n		return false\n	}\n\n	// A canceled")
+	mutant("zero-reference-means-no-goaway", "conn-lifecycle", "serverConn.go", "		ref := atomic.LoadUint32(&sc.closeRef)\n\n		for _, strm := range strms {", "		ref := atomic.LoadUint32(&sc.closeRef)\n		if ref == 0 {\n			return false\n		}\n\n		for _, strm := range strms {")
+	mutant("error-goaway-then-sleep", "conn-lifecycle", "serverConn.go", "						sc.writeGoAway(fr.Stream(), ProtocolError, \"RST_STREAM on idle stream\")\n\n						// No further frame may ever reach this loop, so this\n						// is the moment to notice that nothing is left to\n						// wait for.\n						if canCloseAfterGoAway() {\n							break loop\n						}\n", "						sc.writeGoAway(fr.Stream(), ProtocolError, \"RST_STREAM on idle stream\")\n")
 }
